@@ -448,10 +448,11 @@ def run_check(pid, tier, replay=None):
     if concrete or other:
         rc = 1
         os.makedirs(os.path.join(VERIF, "replays", pid), exist_ok=True)
+        concrete.sort(key=lambda v: len(json.dumps(v.get("case"), default=str)))
         lead = concrete[0] if concrete else other[0]
         rp = {"property": pid, "kind": lead["kind"], "key": lead["key"], "detail": lead["detail"],
               "case": lead.get("case"), "impl_result": lead.get("impl"),
-              "no_longer_checks": [v.get("names") for v in other if v.get("names")],
+              "no_longer_checks": list(dict.fromkeys(v.get("names") for v in other if v.get("names"))),
               "all_violation_kinds": sorted({v["kind"] for v in concrete + other}),
               "replay_cmd": "cd /verif && ./check %s --replay <this file>" % pid}
         if lead.get("case") is not None and model_ok and hasattr(mod, "coq_show"):
